@@ -39,13 +39,17 @@ Coercible(s, t, v) ==
          [] KindOfT(s, b) = "ENUM" -> v.k = "enum" /\ v.v \in NameSet(s.types[b].values)
          [] OTHER -> TRUE
 
-UseViols(s, where, loc, uses) ==
+\* deviation DirArgErrorUnnamed: the error for an uncoercible directive argument (or default) gives
+\* the position and the expected type but not the argument or directive
+Unnamed(dv, name, t) == IF "DirArgErrorUnnamed" \in dv THEN BaseName(t) ELSE name
+
+UseViols(s, dv, where, loc, uses) ==
   UNION { LET du == uses[i] IN
           IF du.n \notin DOMAIN AllDirs(s) THEN {Viol("undefined_directive", du.n)}
           ELSE LET d == AllDirs(s)[du.n] IN
                (IF loc \notin Range(d.locs) THEN {Viol("directive_location", du.n)} ELSE {})
                \cup { Viol("directive_unknown_arg", du.args[j].n) : j \in {j \in DOMAIN du.args : du.args[j].n \notin NameSet(d.args)} }
-               \cup { Viol("directive_arg_value", du.args[j].n) :
+               \cup { Viol("directive_arg_value", Unnamed(dv, du.args[j].n, ByName(d.args, du.args[j].n).type)) :
                         j \in {j \in DOMAIN du.args : du.args[j].n \in NameSet(d.args)
                                                       /\ ~Coercible(s, ByName(d.args, du.args[j].n).type, du.args[j].v)} }
         : i \in DOMAIN uses }
@@ -55,26 +59,26 @@ UseViols(s, where, loc, uses) ==
 RefViols(s, t) == IF TypeDefined(s, BaseName(t)) THEN {} ELSE {Viol("undefined_type", BaseName(t))}
 
 ArgsViols(s, dv, owner, args, fieldLevelChecked) ==
-  (IF HasDup(Names(args)) THEN {Viol("duplicate_argument", owner)} ELSE {})
+  (IF HasDup(Names(args)) THEN {Viol("duplicate_argument", owner)} \cup {Viol("duplicate_argument", args[i].n) : i \in {i \in DOMAIN args : \E j \in DOMAIN args : j # i /\ args[j].n = args[i].n}} ELSE {})
   \cup UNION { LET a == args[i] IN
                RefViols(s, a.type) \cup NameViols("argument", a.n)
                \cup (IF TypeDefined(s, BaseName(a.type)) /\ ~IsInputT(s, a.type) THEN {Viol("argument_not_input_type", a.n)} ELSE {})
                \cup (IF DoubleNonNull(a.type) THEN {Viol("double_non_null", a.n)} ELSE {})
-               \cup (IF fieldLevelChecked THEN UseViols(s, a.n, "ARGUMENT_DEFINITION", a.dirs)
-                     ELSE { v \in UseViols(s, a.n, "ARGUMENT_DEFINITION", a.dirs) : v.rule = "undefined_directive" })
+               \cup (IF fieldLevelChecked THEN UseViols(s, dv, a.n, "ARGUMENT_DEFINITION", a.dirs)
+                     ELSE { v \in UseViols(s, dv, a.n, "ARGUMENT_DEFINITION", a.dirs) : v.rule = "undefined_directive" })
              : i \in DOMAIN args }
 
 FieldsViols(s, dv, d) ==
   (IF d.fields = <<>> THEN {Viol("empty", d.name)} ELSE {})
-  \cup (IF HasDup(Names(d.fields)) THEN {Viol("duplicate_field", d.name)} ELSE {})
+  \cup (IF HasDup(Names(d.fields)) THEN {Viol("duplicate_field", d.name)} \cup {Viol("duplicate_field", d.fields[i].n) : i \in {i \in DOMAIN d.fields : \E j \in DOMAIN d.fields : j # i /\ d.fields[j].n = d.fields[i].n}} ELSE {})
   \cup UNION { LET f == d.fields[i]
                    chk == "FieldLevelDirUseUnchecked" \notin dv IN
                RefViols(s, f.type) \cup NameViols("field", f.n)
                \cup (IF TypeDefined(s, BaseName(f.type)) /\ ~IsOutputT(s, f.type) THEN {Viol("field_not_output_type", f.n)} ELSE {})
                \cup (IF DoubleNonNull(f.type) THEN {Viol("double_non_null", f.n)} ELSE {})
                \cup ArgsViols(s, dv, f.n, f.args, chk)
-               \cup (IF chk THEN UseViols(s, f.n, "FIELD_DEFINITION", f.dirs)
-                     ELSE { v \in UseViols(s, f.n, "FIELD_DEFINITION", f.dirs) : v.rule = "undefined_directive" })
+               \cup (IF chk THEN UseViols(s, dv, f.n, "FIELD_DEFINITION", f.dirs)
+                     ELSE { v \in UseViols(s, dv, f.n, "FIELD_DEFINITION", f.dirs) : v.rule = "undefined_directive" })
              : i \in DOMAIN d.fields }
 
 \* ---- interfaces ----------------------------------------------------------
@@ -118,7 +122,7 @@ DirCycle(s, n) == n \in DirReach(s, {n}, {})
 DefViols(s, dv, d) ==
   LET locOf == [k \in {"OBJECT", "INTERFACE", "UNION", "ENUM", "INPUT_OBJECT", "SCALAR", "SCHEMA"} |-> k]   \* type-level location = kind
   IN (IF d.kind \in {"DIRECTIVE", "SCHEMA"} THEN {} ELSE NameViols("type", d.name))
-     \cup (IF d.kind = "DIRECTIVE" THEN NameViols("directive", d.name) ELSE UseViols(s, d.name, locOf[d.kind], d.dirs))
+     \cup (IF d.kind = "DIRECTIVE" THEN NameViols("directive", d.name) ELSE UseViols(s, dv, d.name, locOf[d.kind], d.dirs))
      \cup CASE d.kind = "OBJECT" -> FieldsViols(s, dv, d) \cup ImplViols(s, d)
             [] d.kind = "INTERFACE" -> FieldsViols(s, dv, d)
             [] d.kind = "UNION" ->
@@ -128,20 +132,20 @@ DefViols(s, dv, d) ==
                             : i \in DOMAIN d.members }
             [] d.kind = "ENUM" ->
                  (IF d.values = <<>> THEN {Viol("empty", d.name)} ELSE {})
-                 \cup (IF HasDup(Names(d.values)) THEN {Viol("duplicate_enum_value", d.name)} ELSE {})
+                 \cup (IF HasDup(Names(d.values)) THEN {Viol("duplicate_enum_value", d.name)} \cup {Viol("duplicate_enum_value", d.values[i].n) : i \in {i \in DOMAIN d.values : \E j \in DOMAIN d.values : j # i /\ d.values[j].n = d.values[i].n}} ELSE {})
                  \cup UNION { NameViols("enum value", d.values[i].n)
                               \cup (IF d.values[i].n \in {"true", "false", "null"} THEN {Viol("bad_enum_value", d.values[i].n)} ELSE {})
-                              \cup UseViols(s, d.values[i].n, "ENUM_VALUE", d.values[i].dirs)
+                              \cup UseViols(s, dv, d.values[i].n, "ENUM_VALUE", d.values[i].dirs)
                             : i \in DOMAIN d.values }
             [] d.kind = "INPUT_OBJECT" ->
                  (IF d.infields = <<>> THEN {Viol("empty", d.name)} ELSE {})
-                 \cup (IF HasDup(Names(d.infields)) THEN {Viol("duplicate_input_field", d.name)} ELSE {})
+                 \cup (IF HasDup(Names(d.infields)) THEN {Viol("duplicate_input_field", d.name)} \cup {Viol("duplicate_input_field", d.infields[i].n) : i \in {i \in DOMAIN d.infields : \E j \in DOMAIN d.infields : j # i /\ d.infields[j].n = d.infields[i].n}} ELSE {})
                  \cup UNION { LET f == d.infields[i]
                                   chk == "FieldLevelDirUseUnchecked" \notin dv IN
                               RefViols(s, f.type) \cup NameViols("field", f.n)
                               \cup (IF TypeDefined(s, BaseName(f.type)) /\ ~IsInputT(s, f.type) THEN {Viol("input_field_not_input_type", f.n)} ELSE {})
-                              \cup (IF chk THEN UseViols(s, f.n, "INPUT_FIELD_DEFINITION", f.dirs)
-                                    ELSE { v \in UseViols(s, f.n, "INPUT_FIELD_DEFINITION", f.dirs) : v.rule = "undefined_directive" })
+                              \cup (IF chk THEN UseViols(s, dv, f.n, "INPUT_FIELD_DEFINITION", f.dirs)
+                                    ELSE { v \in UseViols(s, dv, f.n, "INPUT_FIELD_DEFINITION", f.dirs) : v.rule = "undefined_directive" })
                             : i \in DOMAIN d.infields }
             [] d.kind = "DIRECTIVE" ->
                  { Viol("bad_location", d.locs[i]) : i \in {i \in DOMAIN d.locs : d.locs[i] \notin AllLocations} }
@@ -152,8 +156,8 @@ DefViols(s, dv, d) ==
                                        /\ ("DirArgNestedNonInput" \notin dv \/ a.type.k = "named")
                                     THEN {Viol("directive_arg_not_input_type", a.n)} ELSE {})
                               \cup (IF a.hasDef /\ TypeDefined(s, BaseName(a.type)) /\ IsInputT(s, a.type) /\ ~Coercible(s, a.type, a.def)
-                                    THEN {Viol("directive_arg_default", a.n)} ELSE {})
-                              \cup UseViols(s, a.n, IF "ArgDefLocation" \in dv THEN "INPUT_FIELD_DEFINITION" ELSE "ARGUMENT_DEFINITION", a.dirs)
+                                    THEN {Viol("directive_arg_default", Unnamed(dv, a.n, a.type))} ELSE {})
+                              \cup UseViols(s, dv, a.n, IF "ArgDefLocation" \in dv THEN "INPUT_FIELD_DEFINITION" ELSE "ARGUMENT_DEFINITION", a.dirs)
                             : i \in DOMAIN d.args }
                  \cup (IF DirCycle(s, d.name) THEN {Viol("directive_cycle", d.name)} ELSE {})
             [] OTHER -> {}
